@@ -18,9 +18,9 @@ type c15Extra struct {
 	RepeatTag string `json:"repeat_tag"` // tag of the block that repeats the title (repeat mode)
 }
 
-var c15Seps = []string{" | ", " - ", " / ", ` \ `, " > ", " » ", ": ", " : ", "-", "|", ":", " – ", " — "}
+var c15Seps = []string{" | ", " - ", " / ", ` \ `, " > ", " » ", ": ", " : ", "-", "|", ":", " – ", " — ", ` |\/| `, ` \/ `}
 
-func (g *G) c15Title() (string, bool) {
+func (g *G) c15Title(hasTitleElem bool) (string, bool) {
 	lenClass := g.weighted("tlen", []wc{{"short", 15}, {"normal", 65}, {"long", 20}})
 	nparts := g.intn(1, 4, "tparts")
 	script := g.pick("script", "ascii", "ascii", "cyrillic", "greek", "accented")
@@ -41,11 +41,17 @@ func (g *G) c15Title() (string, bool) {
 	title := parts[0]
 	hasSep := false
 	for _, p := range parts[1:] {
-		title += c15Seps[g.intn(0, len(c15Seps)-1, "tsep")] + p
+		sep := c15Seps[g.intn(0, len(c15Seps)-1, "tsep")]
+		if !hasTitleElem && strings.Contains(sep, `\/`) {
+			// without <title> the text comes from the rendered text of the first h1, where the
+			// library's own line-break marker |\/| cannot be told from page text (DESIGN §6.2)
+			sep = " | "
+		}
+		title += sep + p
 		hasSep = true
 	}
 	if g.intn(0, 5, "endpunct") == 0 {
-		title += g.pick("endp", "?", "!", ".", "...", "?!")
+		title += g.pick("endp", "?", "!", ".", "...", "?!", " ?", " !", " ;")
 	}
 	return title, hasSep
 }
@@ -76,6 +82,10 @@ func (g *G) titleWords(k int, script string) string {
 		if g.intn(0, 11, "apos") == 0 {
 			w += g.pick("aposform", "'s", "n't", "'")
 		}
+		if i > 0 && g.intn(0, 14, "dotword") == 0 {
+			// a word that starts with punctuation (".NET", ",v")
+			w = g.pick("dotform", ".", ",", "!") + w
+		}
 		ws[i] = w
 	}
 	return strings.Join(ws, " ")
@@ -86,15 +96,16 @@ const c15Marker = "\x05REPEAT\x06"
 func genC15(t *rapid.T) *Case {
 	p := articleProfile()
 	g := newG(t, p)
-	g.push("ti")
-	title, _ := g.c15Title()
-	g.pop()
 	mode := g.pick("mode", "origin", "origin", "repeat")
+	hasTitleElem := mode == "repeat" || !g.chance(8, "notitle")
+	g.push("ti")
+	title, _ := g.c15Title(hasTitleElem)
+	g.pop()
 	var head, body strings.Builder
-	if mode == "repeat" || !g.chance(8, "notitle") {
+	if hasTitleElem {
 		head.WriteString("<title>" + g.pick("tpad", "", " ", "\n  ") + html.EscapeString(title) + g.pick("tpad2", "", " ", "\n") + "</title>")
 	}
-	markup := g.weighted("markup", []wc{{"none", 60}, {"og", 12}, {"og-partial", 8}, {"schema", 10}, {"ie", 10}})
+	markup := g.weighted("markup", []wc{{"none", 55}, {"og", 12}, {"og-partial", 8}, {"schema", 10}, {"ie", 10}, {"og-optout", 5}})
 	if mode == "repeat" {
 		markup = g.weighted("markup2", []wc{{"none", 80}, {"og-partial", 20}})
 	}
@@ -102,6 +113,9 @@ func genC15(t *rapid.T) *Case {
 	switch markup {
 	case "og":
 		head.WriteString(`<meta property="og:title" content="` + g.words2(g.intn(1, 6, "ogw")) + `"><meta property="og:type" content="article"><meta property="og:url" content="http://example.com/x"><meta property="og:image" content="http://example.com/i.png">`)
+	case "og-optout":
+		// a page that opts out of markup extraction: MarkupInfo is empty, so there is no markup title
+		head.WriteString(`<meta name="IE_RM_OFF" content="true"><meta property="og:title" content="` + g.words2(g.intn(1, 6, "ogw")) + `"><meta property="og:type" content="article"><meta property="og:url" content="http://example.com/x"><meta property="og:image" content="http://example.com/i.png">`)
 	case "og-partial":
 		head.WriteString(`<meta property="og:title" content="` + g.words2(3) + `"><meta property="og:type" content="article">`)
 	case "ie":
@@ -126,6 +140,8 @@ func genC15(t *rapid.T) *Case {
 		b := g.intn(a, len(fs)-1, "pb")
 		h1 = strings.Join(fs[a:b+1], " ")
 	}
+	// in a heading (rendered text) the library's line-break marker cannot be told from page text
+	h1 = strings.ReplaceAll(h1, `|\/|`, "|")
 	g.pop()
 	body.WriteString(g.longPara(40, 90))
 	if h1 != "" {
